@@ -74,6 +74,35 @@ HX void hx_usage(uint64_t nargs, uint64_t display) {
    if (!any_mand) vs_assert(pos_mand == std::string::npos, "no mandatory caption without a visible mandatory argument");
    vs_note("rc", rc);
 }
+// two-line layout: a key of 40 or more characters switches the usage to "key on its own line"; the same visibility rules apply
+HX void hx_usage_long(uint64_t display, uint64_t) {
+   std::ostringstream os, es;
+   int hf = Handler::hfHelpShort | Handler::hfUsageCont;
+   if (display & 1) hf |= Handler::hfUsageHidden;
+   if (display & 2) hf |= Handler::hfUsageDeprecated;
+   Handler ah(os, es, hf);
+   static const char* const LONGKEY = "an-argument-with-a-very-long-name-for-the-two-line-layout";
+   int dst[2] = {0, 0};
+   unsigned char fl = vs_u8("flags"); vs_assume(fl < 8); vs_assume(!((fl & 1) && (fl & 4)));
+   unsigned char fl2 = vs_u8("flags"); vs_assume(fl2 < 2);
+   auto* a = ah.addArgument(LONGKEY, DEST_VAR(dst[0]), "long-key-description");
+   if (fl & 1) a->setIsMandatory(); if (fl & 2) a->setIsHidden(); if (fl & 4) a->setIsDeprecated();
+   auto* b = ah.addArgument("b,beta", DEST_VAR(dst[1]), "second-description");
+   if (fl2 & 1) b->setIsMandatory();
+   char a0[] = "prog", a1[] = "-h"; char* argv[] = {a0, a1, nullptr};
+   int rc = 0;
+   try { ah.evalArguments(2, argv); } catch (const std::exception&) { rc = 1; } catch (...) { rc = 2; }
+   const std::string out = os.str();
+   vs_assert(rc != 2, "only std::exception");
+   bool vis = ((display & 1) || !(fl & 2)) && ((display & 2) || !(fl & 4));
+   vs_assert(count(out, "long-key-description") == (vis ? 1u : 0u), "two-line layout: a visible argument is listed exactly once, an invisible one not at all");
+   vs_assert(count(out, std::string("--") + LONGKEY) == (vis ? 1u : 0u), "two-line layout: the key of a visible argument is printed exactly once");
+   vs_assert(count(out, "second-description") == 1, "two-line layout: the other arguments are still listed exactly once");
+   vs_assert(count(out, "Prints the program usage") == 1, "two-line layout: the standard help argument is listed exactly once");
+   size_t pos_mand = out.find("Mandatory arguments:"), pos_opt = out.find("Optional arguments:"), kb = out.find("second-description");
+   if (fl2 & 1) vs_assert(pos_mand != std::string::npos && kb > pos_mand && (pos_opt == std::string::npos || kb < pos_opt), "two-line layout: mandatory argument under the mandatory caption");
+   else vs_assert(pos_opt != std::string::npos && kb > pos_opt, "two-line layout: optional argument under the optional caption");
+}
 // help for a single argument: prints that argument's description, or reports it as unknown
 HX void hx_help_arg(uint64_t which, uint64_t) {
    std::ostringstream os, es;
